@@ -476,6 +476,14 @@ AbortRemainingPre(c, e) ==
       res |-> "ok"]
 AbortRemaining(c, e) == Finish(c, AbortRemainingPre(c, e))
 
+(* reconsider_all_jobs(): a ConsiderJob for every unfinished job (subject to the same guard as
+   every other reconsideration), then the queue is processed *)
+ReconsiderAllPre(c, e) ==
+  LET todo == SelectSeq(e.ord.jobs, LAMBDA j : ~IsFin(e, j))
+      e1 == FoldL(LAMBDA acc, j : Reconsider(acc, j), Begin(e), todo)
+  IN [e |-> [e1 EXCEPT !.sigq = e1.newq, !.newq = <<>>], res |-> "ok"]
+ReconsiderAll(c, e) == Finish(c, ReconsiderAllPre(c, e))
+
 (***************************************************************************)
 (* new_history: [res, h]                                                   *)
 (***************************************************************************)
